@@ -206,6 +206,19 @@ def catalog(tier="quick"):
         return sp
     out.append(("special/nan-vertex-assigned", make_assigned))
 
+    def make_same_names(sym):
+        # component names need not be unique: two rule blocks called "rules", two unnamed ones, two output variables' terms named alike
+        rb = lambda name, rules: {"name": name, "conjunction": "Minimum", "disjunction": "Maximum", "implication": "Minimum", "activation": ("General",), "rules": rules}
+        return base(blocks=[rb("rules", ["if X is a then O is a"]), rb("rules", ["if X is b then O is b"]), rb("", ["if X is not a then O is b with 0.5"]), rb("", ["if X is very b then O is a"])])
+    out.append(("names/same-named-rule-blocks", make_same_names))
+
+    def make_discrete_inf(sym):
+        # a saturating look-up table: the first and last pairs sit at -inf / +inf
+        inf = float("inf")
+        d = ("Discrete", "a", [-inf, sym("qx0", "p"), sym("qx1", "p"), inf], [sym("qy0", "u"), sym("qy1", "u"), sym("qy2", "u"), sym("qy3", "u")])
+        return base(inputs=[{"name": "X", "terms": [d, T_B]}], sorted_x=[("qx0", "qx1")])
+    out.append(("term/Discrete-infinite-ends", make_discrete_inf))
+
     def make_weights(sym):
         return base(blocks=[{"name": "rb", "conjunction": "Minimum", "disjunction": "Maximum", "implication": "Minimum", "activation": ("General",),
                              "rules": ["if X is a then O is a", "if X is b then O is b", "if X is not b then O is a"]}],
